@@ -1485,6 +1485,105 @@ class PutParser(Contract):
         return t
 
 
+TRASH_EACH_LOOP = ('trashcli.put.context', 'Context.trash_each', 0)
+
+
+class PutParserAnyLength(PutParser):
+    """as PutParser, but the operand list is a sequence of ARBITRARY length
+    >= 1 (Parser.parse_args returns ExitWithCode for no operand: option VC)"""
+
+    def apply(self, V, a):
+        ctx = V.ctx
+        n = z3.Int('arg.nfiles')
+        ctx.assume(n >= 1)
+        f = z3.Function('arg.file', z3.IntSort(), z3.StringSort())
+        files = SymSeq(n, lambda i: f(i if z3.is_expr(i) else z3.IntVal(i)),
+                       ('argv-files',))
+        mode_cls = V.I.lookup('trashcli.put.core.mode', 'Mode')
+        mode = mode_cls.enum_members[ctx.choose(3, 'mode')]
+        cls = V.I.lookup(self.module, 'Trash')
+        ctx.ghost['files_seq'] = files
+        return V.I.call(cls, [], {
+            'type': cls, 'program_name': 'trash-put', 'options': None,
+            'files': files, 'trash_dir': None, 'mode': mode,
+            'forced_volume': None, 'verbose': 0, 'home_fallback': False})
+
+
+def trash_each_loop_annot(prefix):
+    """for path in self.paths: inductive invariant 'failed_paths is non-empty
+    iff some argument so far failed' (ghost any_failed accumulates the
+    outcomes trash_single's contract hands out); per iteration exactly one
+    trash_single call, for that argument, with this context"""
+    def seq_len(v):
+        if isinstance(v, SymSeq):
+            return v.length
+        return z3.IntVal(len(v))
+
+    def invariant(I_, env, seq, i):
+        ctx = I_.ctx
+        af = ctx.ghost.setdefault('any_failed', z3.BoolVal(False))
+        return [('failed-list-non-empty-iff-an-argument-failed-so-far',
+                 (seq_len(env.vars['failed_paths']) > 0) == af)]
+
+    def havoc_ghost(I_, env):
+        I_.ctx.ghost['any_failed'] = I_.ctx.fresh_bool('any_failed')
+
+    def on_element(I_, env, seq, i, x):
+        I_.ctx.ghost['single_mark'] = len(I_.ctx.ghost.get('single_calls', []))
+        return None
+
+    def at_end(I_, env, seq, i, x):
+        ctx = I_.ctx
+        calls = ctx.ghost.get('single_calls', [])[ctx.ghost['single_mark']:]
+        ctx.oblige(prefix + '/each-argument-is-handled-by-exactly-one-trash_single-call',
+                   z3.BoolVal(len(calls) == 1))
+        if len(calls) != 1:
+            return
+        path, ok, context = calls[0]
+        ctx.oblige(prefix + '/the-call-is-for-this-argument-with-the-same-options',
+                   z3.And(T(path) == T(x), z3.BoolVal(context is env.vars['self'])))
+        ctx.ghost['any_failed'] = z3.Or(ctx.ghost['any_failed'], z3.BoolVal(not ok))
+
+    return LoopAnnot(invariant=invariant, types={'failed_paths': 'seq'},
+                     keep={'result'}, havoc_ghost=havoc_ghost,
+                     on_element=on_element, at_iteration_end=at_end)
+
+
+def run_put_any_length_vc(S, prefix='put/run-any-length'):
+    """exit status over argument lists of EVERY length (loop cut at the
+    invariant of Context.trash_each)"""
+    contracts = [TrashSingle(), PutParserAnyLength()]
+    loops = {TRASH_EACH_LOOP: trash_each_loop_annot(prefix)}
+
+    def body(V):
+        ctx = V.ctx
+        o = put_objects(V)
+        fv = S.resolve('trashcli.put.trash_put_cmd', 'TrashPutCmd.run_put')
+        S.resolve('trashcli.put.context', 'Context.trash_each')
+        S.resolve('trashcli.put.reporting.trash_put_reporter',
+                  'TrashPutReporter.exit_code')
+        S.resolve('trashcli.put.core.trash_all_result',
+                  'TrashAllResult.any_failure')
+        uid = arg_int('uid')
+        try:
+            code = V.I.call_function(fv, [], {
+                'self': o['cmd'], 'argv': ['trash-put'],
+                'environ': V.I.lib.environ(), 'uid': uid})
+        except PyExc as pe:
+            ctx.oblige(prefix + '/nothrow', z3.BoolVal(False), kind='nothrow',
+                       info={'exception': pe.value.cls.name})
+            return
+        ctx.oblige(prefix + '/nothrow', z3.BoolVal(True), kind='nothrow')
+        af = ctx.ghost.get('any_failed', z3.BoolVal(False))
+        ctx.oblige(prefix + '/exit-status-0-iff-no-argument-failed',
+                   z3.And(z3.BoolVal(isinstance(code, int) and not isinstance(code, bool)),
+                          z3.BoolVal(code == 0) == z3.Not(af)))
+        ctx.cover(prefix + '/cover-end')
+
+    S.install(contracts, loops)
+    S.run_paths(prefix, body, active=[c.key for c in contracts])
+
+
 def run_put_vc(S, prefix='put/run'):
     contracts = [TrashSingle(), PutParser()]
 
